@@ -60,3 +60,110 @@ class AsyncFacade:
 
     def __setattr__(self, name, value):
         setattr(self._e, name, value)
+
+
+# ----------------------------------------------------------------------------- probes placed between an enforcer and its
+# recording watcher / adapter (used by C20, C11, C09; work for casbin.Enforcer and for the facade alike)
+WATCHER_CALLBACKS = ("update", "update_for_add_policy", "update_for_remove_policy", "update_for_remove_filtered_policy",
+                     "update_for_save_policy", "update_for_add_policies", "update_for_remove_policies",
+                     "update_for_update_policy", "update_for_update_policies")
+
+
+def unwrap(x):
+    """the innermost object behind AsyncAdapterShim / RefusingAdapter / WatcherProxy wrappers"""
+    while x is not None and "_inner" in getattr(x, "__dict__", {}):
+        x = x.__dict__["_inner"]
+    return x
+
+
+def snapshot(e):
+    """what an observer sees of enforcer `e` right now: the stored rules per policy type and the rows its (recording)
+    adapter holds - plain strings, in stored order"""
+    mem = {}
+    for sec in ("p", "g"):
+        for key, ast in (e.model.model.get(sec) or {}).items():
+            mem[key] = [list(r) for r in ast.policy]
+    ad = unwrap(getattr(e, "adapter", None))
+    rows = [(pt, list(r)) for pt, r in getattr(ad, "rows", [])] if ad is not None else []
+    return dict(mem=mem, rows=rows)
+
+
+class WatcherProxy:
+    """offers exactly the callbacks the inner (recording) watcher offers; each one first calls on_notify(name) - e.g. to
+    look at the enforcer at the moment the notification is issued - and then the inner callback.
+    coro=True: the update_for_* callbacks are coroutine functions that give the loop one turn before they record
+    (update() stays a plain function, as in casbin.persist.Watcher)."""
+
+    def __init__(self, inner, on_notify=None, coro=False):
+        self.__dict__["_inner"] = inner
+        for n in WATCHER_CALLBACKS:
+            f = getattr(inner, n, None)
+            if callable(f):
+                self.__dict__[n] = self._wrap(n, f, on_notify, coro and n != "update")
+
+    @staticmethod
+    def _wrap(name, f, on_notify, as_coro):
+        if as_coro:
+            async def cb(*a, **k):
+                if on_notify:
+                    on_notify(name)
+                await asyncio.sleep(0)
+                return f(*a, **k)
+        else:
+            def cb(*a, **k):
+                if on_notify:
+                    on_notify(name)
+                return f(*a, **k)
+        return cb
+
+    def set_update_callback(self, cb):
+        return self._inner.set_update_callback(cb)
+
+
+class RefusingAdapter:
+    """an adapter that REFUSES some of its calls: a method named in `refuse` changes nothing, records nothing and returns
+    False (the documented way for an adapter to say "not stored"); every other attribute is the inner adapter's"""
+
+    def __init__(self, inner, refuse=()):
+        self.__dict__["_inner"] = inner
+        self.__dict__["_refuse"] = frozenset(refuse)
+
+    def __getattr__(self, name):
+        attr = getattr(self._inner, name)
+        if name in self._refuse and callable(attr):
+            return lambda *a, **k: False
+        return attr
+
+    def __setattr__(self, name, value):
+        setattr(self._inner, name, value)
+
+
+def _note_snapshot(e, inner_watcher):
+    def on_notify(name):
+        if not hasattr(inner_watcher, "snaps"):
+            inner_watcher.snaps = []
+        inner_watcher.snaps.append(snapshot(e))
+    return on_notify
+
+
+def probed_enforcer(is_async=False, coro=False, refuse=()):
+    """an enforcer class for mgmt.Impl(enforcer_cls=...): casbin.Enforcer (or the facade over casbin.AsyncEnforcer) whose
+    set_watcher puts a WatcherProxy in front of the recording watcher - it appends snapshot(enforcer) to the recording
+    watcher's `snaps` at every notification - and whose set_adapter puts a RefusingAdapter in front of the adapter"""
+    if is_async:
+        class Probed(AsyncFacade):
+            def set_adapter(self, adapter):
+                a = RefusingAdapter(adapter, refuse) if (adapter is not None and refuse) else adapter
+                self._e.set_adapter(AsyncAdapterShim(a) if a is not None else None)
+
+            def set_watcher(self, w):
+                self._e.set_watcher(WatcherProxy(w, _note_snapshot(self._e, w), coro) if w is not None else None)
+    else:
+        class Probed(casbin.Enforcer):
+            def set_adapter(self, adapter):
+                super().set_adapter(RefusingAdapter(adapter, refuse) if (adapter is not None and refuse) else adapter)
+
+            def set_watcher(self, w):
+                super().set_watcher(WatcherProxy(w, _note_snapshot(self, w), False) if w is not None else None)
+    Probed.__name__ = "Probed" + ("AsyncEnforcer" if is_async else "Enforcer")
+    return Probed
